@@ -33,15 +33,16 @@ _Q_CACHE = {}
 
 
 def rationalise(x):
-    """The real number a concrete float stands for: simplest rational within 2 ulp, else exact."""
+    """The real number a concrete float stands for: the simple rational (denominator <= 1e6) within 64 ulp
+    (a few accumulated roundings of concrete float arithmetic inside the code), else its exact binary value."""
     x = float(x)
     fr = fractions.Fraction(x)
     if fr.denominator == 1:
         return fr
-    cand = fr.limit_denominator(10**9)
+    cand = fr.limit_denominator(10**6)
     if cand != fr:
         ulp = math.ulp(x)
-        if abs(cand - fr) <= 2 * fractions.Fraction(ulp):
+        if abs(cand - fr) <= 64 * fractions.Fraction(ulp):
             return cand
     return fr
 
